@@ -2021,62 +2021,46 @@ impl ConfigState {
             }
         }
 
-        for ((cluster_id, backend_id), res) in diff_map(
-            self.backends.iter().flat_map(|(cluster_id, v)| {
-                v.iter()
-                    .map(move |backend| ((cluster_id, &backend.backend_id), backend))
-            }),
-            other.backends.iter().flat_map(|(cluster_id, v)| {
-                v.iter()
-                    .map(move |backend| ((cluster_id, &backend.backend_id), backend))
-            }),
+        // A backend is identified by (cluster_id, backend_id, address): that is
+        // the key add_backend upserts on and remove_backend removes by. Two
+        // backends may share a backend_id at different addresses.
+        type BackendKey<'a> = (&'a ClusterId, &'a String, &'a SocketAddr);
+        fn index_backends(state: &ConfigState) -> BTreeMap<BackendKey<'_>, &Backend> {
+            state
+                .backends
+                .iter()
+                .flat_map(|(cluster_id, v)| {
+                    v.iter().map(move |backend| {
+                        ((cluster_id, &backend.backend_id, &backend.address), backend)
+                    })
+                })
+                .collect()
+        }
+        let my_backends = index_backends(self);
+        let their_backends = index_backends(other);
+        let remove_backend_request = |backend: &Backend| -> Request {
+            RequestType::RemoveBackend(RemoveBackend {
+                cluster_id: backend.cluster_id.clone(),
+                backend_id: backend.backend_id.clone(),
+                address: SocketAddress::from(backend.address),
+            })
+            .into()
+        };
+        for (key, res) in diff_map(
+            my_backends.iter().map(|(k, b)| (*k, *b)),
+            their_backends.iter().map(|(k, b)| (*k, *b)),
         ) {
             match res {
                 DiffResult::Added => {
-                    let backend = other
-                        .backends
-                        .get(cluster_id)
-                        .and_then(|v| v.iter().find(|b| &b.backend_id == backend_id))
-                        .unwrap();
+                    let backend = their_backends[&key];
                     v.push(RequestType::AddBackend(backend.clone().to_add_backend()).into());
                 }
                 DiffResult::Removed => {
-                    let backend = self
-                        .backends
-                        .get(cluster_id)
-                        .and_then(|v| v.iter().find(|b| &b.backend_id == backend_id))
-                        .unwrap();
-
-                    v.push(
-                        RequestType::RemoveBackend(RemoveBackend {
-                            cluster_id: backend.cluster_id.clone(),
-                            backend_id: backend.backend_id.clone(),
-                            address: SocketAddress::from(backend.address),
-                        })
-                        .into(),
-                    );
+                    v.push(remove_backend_request(my_backends[&key]));
                 }
                 DiffResult::Changed => {
-                    let backend = self
-                        .backends
-                        .get(cluster_id)
-                        .and_then(|v| v.iter().find(|b| &b.backend_id == backend_id))
-                        .unwrap();
-
-                    v.push(
-                        RequestType::RemoveBackend(RemoveBackend {
-                            cluster_id: backend.cluster_id.clone(),
-                            backend_id: backend.backend_id.clone(),
-                            address: SocketAddress::from(backend.address),
-                        })
-                        .into(),
-                    );
-
-                    let backend = other
-                        .backends
-                        .get(cluster_id)
-                        .and_then(|v| v.iter().find(|b| &b.backend_id == backend_id))
-                        .unwrap();
+                    v.push(remove_backend_request(my_backends[&key]));
+                    let backend = their_backends[&key];
                     v.push(RequestType::AddBackend(backend.clone().to_add_backend()).into());
                 }
             }
